@@ -442,8 +442,10 @@ def evaluate__avg(self: XPathFunction, context: ta.ContextType = None) \
                 return []
             raise self.error('FORG0006', err)
     elif all(isinstance(x, int) for x in values):
-        result = sum(cast(list[int], values)) / Decimal(len(values))
-        return int(result) if result % 1 == 0 else result
+        total = sum(cast(list[int], values))
+        if total % len(values) == 0:
+            return total // len(values)  # exact, also beyond the precision of the decimal context
+        return total / Decimal(len(values))
     elif all(isinstance(x, (int, Decimal)) for x in values):
         return sum(cast(list[Decimal], values)) / Decimal(len(values))
     elif all(not isinstance(x, DoubleProxy) for x in values):
@@ -464,6 +466,9 @@ def evaluate__avg(self: XPathFunction, context: ta.ContextType = None) \
             if isinstance(context, XPathSchemaContext):
                 return []
             raise self.error('FORG0006', err)
+        except OverflowError as err:
+            # an integer beyond the range of xs:double
+            raise self.error('FOAR0002', err) from None
 
 
 @method(function('max', nargs=(1, 2),
@@ -491,9 +496,13 @@ def evaluate__max_min_functions(self: XPathFunction, context: ta.ContextType = N
         elif any(isinstance(x, float) and math.isnan(x) for x in values):
             return float_class('NaN')
         elif all(isinstance(x, (int, float, Decimal)) for x in values):
-            return float_class(
-                aggregate_func(cast(list[NumericType], values))
-            )
+            try:
+                return float_class(
+                    aggregate_func(cast(list[NumericType], values))
+                )
+            except OverflowError as err:
+                # an integer beyond the range of xs:double
+                raise self.error('FOAR0002', err) from None
         return aggregate_func(values)  # type: ignore[type-var]
 
     values: list[AtomicType] = []
